@@ -121,6 +121,48 @@ def r14a(ck, prog):
                 up_, uc = u.up(casts=True)
                 if up_ is not None and up_.k == "BinaryOperator" and up_.d["op"] in ("<", ">", "<=", ">=", "==", "!=") and \
                         any(const_value(k) is not None for k in up_.kids):
+                    # a range test (c > 127) tells no letter from its case twin; a comparison with one particular letter does
+                    import operator as _op
+                    OPS = {"<": _op.lt, ">": _op.gt, "<=": _op.le, ">=": _op.ge, "==": _op.eq, "!=": _op.ne}
+
+                    def pure(e):
+                        """e consists of comparisons of this letter with constants joined by && || !"""
+                        e = e.strip(casts=True)
+                        if e.k == "UnaryOperator" and e.d["op"] == "!":
+                            return pure(e.kids[0])
+                        if e.k == "BinaryOperator" and e.d["op"] in ("&&", "||"):
+                            return pure(e.kids[0]) and pure(e.kids[1])
+                        if e.k == "BinaryOperator" and e.d["op"] in OPS:
+                            a_, b_ = e.kids[0].strip(casts=True), e.kids[1].strip(casts=True)
+                            return (a_.k == "DeclRefExpr" and a_.d.get("did") == did and const_value(b_) is not None) or \
+                                (b_.k == "DeclRefExpr" and b_.d.get("did") == did and const_value(a_) is not None)
+                        return False
+
+                    def val(e, ch):
+                        e = e.strip(casts=True)
+                        if e.k == "UnaryOperator":
+                            return not val(e.kids[0], ch)
+                        if e.d["op"] == "&&":
+                            return val(e.kids[0], ch) and val(e.kids[1], ch)
+                        if e.d["op"] == "||":
+                            return val(e.kids[0], ch) or val(e.kids[1], ch)
+                        a_, b_ = e.kids[0].strip(casts=True), e.kids[1].strip(casts=True)
+                        if a_.k == "DeclRefExpr" and a_.d.get("did") == did:
+                            return OPS[e.d["op"]](ch, const_value(b_))
+                        return OPS[e.d["op"]](const_value(a_), ch)
+                    top = up_
+                    while True:
+                        pq, pc = top.up(casts=True)
+                        if pq is not None and ((pq.k == "BinaryOperator" and pq.d["op"] in ("&&", "||")) or (pq.k == "UnaryOperator" and pq.d["op"] == "!")) and pure(pq):
+                            top = pq
+                            continue
+                        break
+                    split = [chr(b_) for b_ in range(65, 91) if val(top, b_) != val(top, b_ + 32)] if pure(top) else []
+                    up_ = top
+                    if split:
+                        ck.violation("R14a", "R14a/%s/case-sensitive-test" % T.name, site(prog, up_),
+                                     "%s tests the raw letter with %s, which holds for one of %s/%s and not for the other: the same residue "
+                                     "written in the other case takes a different path" % (T.name, up_.text()[:40], split[0], split[0].lower()), prog.config)
                     continue
                 bad.append(u)
             use = "local %s used only as table index / range test" % (v.text() if v is not None else "?") if not bad else None
